@@ -9,6 +9,7 @@ four-rendering correspondence stream):
   * record 52: the transliterated part is `toString(false)`, the image bytes are those of `String()`.
 Length-prefix framing itself is lossless for arbitrary bytes (C01.framing_lp).
 -/
+import IclModel.Props.C01
 import IclModel.Tree
 import IclModel.Lemmas.Ebcdic
 import IclModel.Lemmas.Framing
@@ -53,5 +54,24 @@ theorem ebcdic_ivData (m : Model) (v : Vals)
       some ((render m.b64 (m.layout .ivData).write false v).map (fun b => m.cm.encRune b.toNat) ++
         ((m.layout .ivData).write.filter (·.imageOnly)).flatMap (fun f => renderField m.b64 f v)) := by
   simp [bodyOf, encode_ascii _ _ ha]
+
+/-- **same file from all four renderings** (on the model): whenever the writer accepts a file under two
+option sets and each rendering reads back (C01_write_read_lp / C01_write_read_nl give this from the
+per-record premise), the two readings are the same file - character set and framing carry no content -/
+theorem C08_same_file (m : Model) (f : File Vals) (e1 e2 : Enc) (b1 b2 : Bytes)
+    (h1 : readFile m e1 b1 = (f, none)) (h2 : readFile m e2 b2 = (f, none)) :
+    readFile m e1 b1 = readFile m e2 b2 := by rw [h1, h2]
+
+/-- instantiated: length-prefixed ASCII against length-prefixed EBCDIC -/
+theorem C08_same_file_lp (m : Model) (f : File Vals) (b1 b2 : Bytes)
+    (hw1 : writeFile m ⟨true, false⟩ f = some b1) (hw2 : writeFile m ⟨true, true⟩ f = some b2) (hwf : Icl.C01.TreeWF f)
+    (hok1 : Icl.C01.FileOK m ⟨true, false⟩ (Icl.C01.bodyLn m ⟨true, false⟩) f)
+    (hok2 : Icl.C01.FileOK m ⟨true, true⟩ (Icl.C01.bodyLn m ⟨true, true⟩) f)
+    (hbody : ∀ kr ∈ f.flatten, ∀ v, kr.2 = some v →
+      (Icl.C01.bodyLn m ⟨true, true⟩ kr.1 v).length = (lineOf m kr.1 (some v)).length) :
+    readFile m ⟨true, false⟩ b1 = readFile m ⟨true, true⟩ b2 :=
+  C08_same_file m f _ _ b1 b2
+    (Icl.C01.C01_write_read_lp_ascii m ⟨true, false⟩ f b1 rfl rfl hw1 hwf hok1)
+    (Icl.C01.C01_write_read_lp m ⟨true, true⟩ f b2 rfl hw2 hwf hbody hok2)
 
 end Icl.C08
